@@ -1,5 +1,6 @@
 import PyrollModel.Gen.C05
 import PyrollModel.SolveBody
+import PyrollModel.SolveMarks
 /-
   SolveGen — the model of `PyrollModel/Solve.lean` instantiated with what the translator read out of
   pyroll/core/unit/unit.py (`PyrollModel/Gen/C05.lean`, regenerated on every run): the element-wise comparison of the
@@ -68,6 +69,26 @@ def cacheEffects (cls : String) : List String := SolveBody.cacheEffects Gen.C05.
 
 /-- the statements of `reevaluate_cache` of the class in execution order (`SolveBody.Eff`) -/
 def cacheProgram (cls : String) : List SolveBody.Eff := SolveBody.program (cacheEffects cls)
+
+/-! ### nested hook evaluations and the re-entrancy marks (`PyrollModel/SolveMarks.lean` with the policy read from
+    `HookFunction.__init__` / `HookFunction.__call__` / the function-wide flag properties of hooks.py) -/
+
+/-- where the mark store lives, how the `cycle` flag is computed, when the mark is discarded -/
+def marksPolicy : SolveMarks.Policy :=
+  let r := Gen.C05.loop_shape.marks
+  { perFunction := r.contains "store:per-function",
+    perInstance := r.contains "cycle:=key-in-marks",
+    unmark := if r.contains "finally:unmark-unless-cycle" then .unlessCycle
+              else if r.contains "finally:unmark" then .always else .never }
+
+/-- `getattr(<instance k>, <hook g>)` in world `W` with marks `m` set: marks afterwards, value / `AttributeError` -/
+def readHook (W : SolveMarks.World) (fuel g k : Nat) (m : SolveMarks.Marks) : SolveMarks.Marks × SolveMarks.Res :=
+  SolveMarks.read marksPolicy W fuel g k m
+
+/-- a history of top-level reads, the marks handed on -/
+def runReads (fuel : Nat) (qs : List (SolveMarks.World × Nat × Nat)) (m : SolveMarks.Marks) :
+    SolveMarks.Marks × List SolveMarks.Res :=
+  SolveMarks.runAll marksPolicy fuel qs m
 
 def defaultPrec : α := Gen.C05.default_prec_e.eval (fun _ => PyNum.nat 0)
 def defaultMaxIter : Nat := Gen.C05.default_max_iter
